@@ -63,7 +63,16 @@ def runCursor (results : List (List (String × String) × List CRow)) (ops : Lis
           | none => (c, outs ++ ["IndexError"]))
        | _, _, _, _ => (c, outs ++ ["NoDescription"]))
     | _ => (c, outs ++ ["bad-op"])
-  let (_, outs) := ops.foldl step (({} : Cursor), [])
+  -- an iterator kept across the calls: `hopen` = iter(cursor), `hnext` = next() on it (opened on first use)
+  let step2 (acc : (Cursor × List String) × Bool) (op : Sexp) : (Cursor × List String) × Bool :=
+    let ((c, outs), ended) := acc
+    match op with
+    | .list [.atom "hopen"] => ((c, outs ++ ["[]" ++ showState c]), false)
+    | .list [.atom "hnext"] =>
+      let (c', e', rs) := c.heldNext ended
+      ((c', outs ++ [showOut (.rows rs) ++ showState c']), e')
+    | op => (step (c, outs) op, ended)
+  let ((_, outs), _) := ops.foldl step2 ((({} : Cursor), []), false)
   " ; ".intercalate outs
 
 def decodeCursorResult : Sexp → Option (List (String × String) × List CRow)
